@@ -8,9 +8,88 @@
 -/
 import DulwichModel.Model.GC
 import DulwichModel.Model.Reader
+import DulwichModel.Lemmas.GC
+import DulwichModel.Lemmas.Reader
 
 namespace Dulwich.Props.C10
 open Dulwich Dulwich.Reader
+
+/-! ## Logical half: maintenance never loses reachable objects
+
+`GC.Reach s G roots x` (defined in `Lemmas/GC.lean`): `x` is a root (value of a ref or HEAD), or a child — tree/parents of
+a commit, entry of a tree, target of a tag, as given by `G` — of a reachable object that is present in store `s`.
+All theorems hold for every store (any mix of loose objects, packs with duplicates, alternates), every graph `G`,
+every set of roots, every clock and mtimes. -/
+
+/-- The `reachable` set / `pending` deque worklist of `find_reachable_objects` computes exactly the reachable set
+(closure lemma), for every graph — whenever it returns. -/
+theorem reach_worklist_complete (s : GC.Store) (G : GC.Id → List GC.Id) (roots : List GC.Id) (fuel : Nat)
+    (r : List GC.Id) (h : GC.findReachable s G roots fuel = some r) (x : GC.Id) :
+    x ∈ r ↔ GC.Reach s G roots x :=
+  GC.findReachable_iff h x
+
+/-- … and it always returns: the loop pops at most (number of roots + number of child slots of present objects) ids. -/
+theorem reach_worklist_terminates (s : GC.Store) (G : GC.Id → List GC.Id) (roots : List GC.Id) (fuel : Nat)
+    (hf : (roots ++ s.allIds.flatMap G).length ≤ fuel) : (GC.findReachable s G roots fuel).isSome = true :=
+  GC.findReachable_total s G roots fuel hf
+
+/-- every maintenance operation is total (given that much fuel for its reachability walk) -/
+theorem maintenance_total (s : GC.Store) (G : GC.Id → List GC.Id) (roots : List GC.Id) (fuel : Nat) (op : GC.Op)
+    (hf : (roots ++ s.allIds.flatMap G).length ≤ fuel) : (GC.apply G roots fuel op s).isSome = true := by
+  have := GC.findReachable_total s G roots fuel hf
+  cases op <;> simp [GC.apply, this]
+
+/-- For every store, refs and grace periods: every object reachable from refs ∪ HEAD that is present stays present
+after any sequence (any order, any number of times) of pack_loose_objects / repack / prune_unreachable_objects /
+garbage_collect (prune or not, any grace period incl. 0 and None) / pack_refs / temp-file prune.
+(Content is a function of the id in the model; the oracle compares type and bytes on the real code.) -/
+theorem gc_preserves_reachable (G : GC.Id → List GC.Id) (roots : List GC.Id) (fuel : Nat) (ops : List GC.Op)
+    (s s' : GC.Store) (h : GC.applyAll G roots fuel ops s = some s') (x : GC.Id)
+    (hr : GC.Reach s G roots x) (hx : s.has x = true) : s'.has x = true :=
+  GC.applyAll_preserves_reachable h hr hx
+
+/-- Whatever one operation makes disappear was unreachable, and the operation was a prune / a gc with prune=True whose
+grace period the object's mtime (as `get_object_mtime` reports it) had outlived (`t + grace ≤ now`; no condition when the
+grace period is None). -/
+theorem only_old_unreachable_removed (G : GC.Id → List GC.Id) (roots : List GC.Id) (fuel : Nat) (op : GC.Op)
+    (s s' : GC.Store) (h : GC.apply G roots fuel op s = some s') (x : GC.Id)
+    (hx : s.has x = true) (hgone : s'.has x = false) :
+    ¬ GC.Reach s G roots x ∧
+    ((∃ grace now, op = .prune grace now ∧ GC.OldEnough s grace now x) ∨
+     (∃ grace now, op = .gc true grace now ∧ GC.OldEnough s grace now x)) :=
+  GC.apply_only_old_unreachable_removed h hx hgone
+
+/-- maintenance never invents or resurrects an object -/
+theorem maintenance_adds_nothing (G : GC.Id → List GC.Id) (roots : List GC.Id) (fuel : Nat) (op : GC.Op)
+    (s s' : GC.Store) (h : GC.apply G roots fuel op s = some s') (x : GC.Id) (hx : s'.has x = true) :
+    s.has x = true :=
+  GC.apply_no_new_objects h hx
+
+/-- `OldEnough` uses the mtime of ONE copy (the loose file, else the first pack in cache order).  Negation witness of the
+stronger reading "every copy is older than the grace period": object 9 is unreachable, its loose copy is 7200 s old, its
+packed copy 1800 s; `gc(grace 3600)` removes it from the store altogether. -/
+theorem younger_copy_pruned_counterexample :
+    let s : GC.Store := { loose := [(9, 2800)], packs := [{ ids := [1, 2], mtime := 2800 }, { ids := [9], mtime := 8200 }],
+                          alts := [] }
+    let G : GC.Id → List GC.Id := fun x => if x = 1 then [2] else []
+    (GC.apply G [1] 10 (.gc true (some 3600) 10000) s).map (fun s' => (s'.has 1, s'.has 2, s'.has 9)) =
+      some (true, true, false) ∧ 10000 < 8200 + 3600 := by
+  decide
+
+/-- non-vacuity of the hypotheses of the logical theorems: a store with loose, packed, duplicated and alternate objects;
+gc with the default grace period (from the source) keeps the closure of the root and the young unreachable object, and
+removes the old unreachable one. -/
+example :
+    let s : GC.Store := { loose := [(3, 100), (7, 100), (8, 5000000)], packs := [{ ids := [1, 2, 3], mtime := 100 },
+                          { ids := [3, 6], mtime := 100 }], alts := [4] }
+    let G : GC.Id → List GC.Id := fun x => if x = 1 then [2, 3] else if x = 3 then [4, 5] else []
+    GC.findReachable s G [1] 20 = some [1, 2, 3, 4, 5] ∧
+    (GC.apply G [1] 20 (.gc true GC.defaultGrace 5000100) s).map
+        (fun s' => ([1, 2, 3, 4, 5, 6, 7, 8].map s'.has, s'.loose, s'.packs.map (·.ids))) =
+      some ([true, true, true, true, false, false, false, true], [], [[8, 1, 2, 3]]) := by
+  decide
+
+/-! ## Concurrent half -/
 
 /-! ## Concurrent half: concrete witnesses (the general theorems follow below) -/
 
@@ -90,6 +169,39 @@ theorem two_attempts_insufficient_counterexample :
     (run c [g 1, g 2, g 2, g 2, g 2] (RState.init [] [] [])).phase = Phase.done false := by
   decide
 
+/-! ### the general theorems -/
+
+/-- the retry bound found in the source is enough for the theorems below (and `two_attempts_insufficient_counterexample`
+shows that 2 would not be) -/
+theorem rescan_attempts_sufficient : 3 ≤ Gen.GC.maxPackRescanAttempts := by decide
+
+/-- For every interleaving (any schedule) of ONE repacker whose program has the safe shape (`checkProgram`: the new pack
+`pstar` is installed — data, then index — before any pack file is removed, and is never removed) with ANY number of
+readers, each doing `store[x]` or `x in store` from any cache state (empty, stale, already loaded) for an object that is
+in a complete pack at the start and in `pstar`: no reader ever reports "missing".  The number of passes is the constant
+from the source. -/
+theorem reader_finds_persistent_object (pstar : Name) (prog : List Act)
+    (hprog : checkProgram pstar false false prog = true) (f0 : FS) (readers : List (Cfg × RState))
+    (hreaders : ∀ cr ∈ readers, cr.1.maxAttempts = Gen.GC.maxPackRescanAttempts ∧ cr.1.x ∈ cr.1.ids pstar ∧
+        (∃ p, f0.complete p = true ∧ cr.1.x ∈ cr.1.ids p) ∧
+        (∃ cache idxL dataL, cr.2 = RState.init cache idxL dataL))
+    (sched : List (Option Nat)) :
+    ∀ cr ∈ (Sys.exec { fs := f0, prog := prog, readers := readers } sched).readers,
+      ∀ b, cr.2.phase = Phase.done b → b = true := by
+  apply sys_readers_never_miss pstar prog hprog f0 readers
+  intro cr hcr
+  obtain ⟨hN, h⟩ := hreaders cr hcr
+  exact ⟨by rw [hN]; exact rescan_attempts_sufficient, h⟩
+
+/-- The same against an arbitrary environment (e.g. `git repack -a -d` as another process): any sequence of file-system
+states, observed at the reader's steps, in which the object is always in a complete pack and the "no removal before the
+stable pack is complete" discipline holds (`Rely`). -/
+theorem reader_finds_persistent_object_any_environment (c : Cfg) (pstar : Name)
+    (hN : c.maxAttempts = Gen.GC.maxPackRescanAttempts) (tr : List (EPhase × FS)) (hrely : Rely c pstar tr)
+    (cache idxL dataL : List Name) (b : Bool)
+    (hdone : (run c (tr.map (·.2)) (RState.init cache idxL dataL)).phase = Phase.done b) : b = true :=
+  reader_never_misses c pstar (by rw [hN]; exact rescan_attempts_sufficient) tr hrely cache idxL dataL b hdone
+
 /-! ### the recorded programs of the real code have the safe shape -/
 
 /-- `repack()`: the consolidated pack is fully installed (data, then index) before any old pack file is removed, and it
@@ -102,5 +214,32 @@ theorem recorded_pack_loose_order_safe :
 
 theorem recorded_gc_order_safe :
     checkProgram Gen.GC.gcNewPack false false (Gen.GC.gcProgram.map Act.ofCode) = true := by decide
+
+/-- `repack_order_safe`: readers of any object that is packed before the real `repack()` starts survive it, whatever the
+schedule — the program is the one recorded from the source on this run. -/
+theorem repack_order_safe (f0 : FS) (readers : List (Cfg × RState))
+    (hreaders : ∀ cr ∈ readers, cr.1.maxAttempts = Gen.GC.maxPackRescanAttempts ∧
+        cr.1.x ∈ cr.1.ids Gen.GC.repackNewPack ∧ (∃ p, f0.complete p = true ∧ cr.1.x ∈ cr.1.ids p) ∧
+        (∃ cache idxL dataL, cr.2 = RState.init cache idxL dataL))
+    (sched : List (Option Nat)) :
+    ∀ cr ∈ (Sys.exec { fs := f0, prog := Gen.GC.repackProgram.map Act.ofCode, readers := readers } sched).readers,
+      ∀ b, cr.2.phase = Phase.done b → b = true :=
+  reader_finds_persistent_object _ _ recorded_repack_order_safe f0 readers hreaders sched
+
+/-- non-vacuity: a concrete instance of all hypotheses of `repack_order_safe` (object 5 in old pack 2 and in the new
+pack 1; one cold `get_raw` reader and one `__contains__` reader with a stale cache), and a schedule on which both
+lookups finish — with "found". -/
+example :
+    let ids : Name → List Id := fun p => if p = 1 then [5, 6, 7] else if p = 2 then [5] else if p = 3 then [6] else []
+    let c1 : Cfg := { ids := ids, x := 5, needData := true, alts := [], maxAttempts := Gen.GC.maxPackRescanAttempts, reprobe := false }
+    let c2 : Cfg := { c1 with needData := false }
+    let f0 : FS := { idx := [2, 3], data := [3, 2], loose := [7] }
+    let readers := [(c1, RState.init [] [] []), (c2, RState.init [9, 2] [] [])]
+    checkProgram Gen.GC.repackNewPack false false (Gen.GC.repackProgram.map Act.ofCode) = true ∧
+    f0.complete 2 = true ∧ (5 ∈ ids 2) ∧ (5 ∈ ids Gen.GC.repackNewPack) ∧
+    ((Sys.exec { fs := f0, prog := Gen.GC.repackProgram.map Act.ofCode, readers := readers }
+        [some 0, none, none, some 1, none, none, none, none, none, none, some 0, some 0, some 0, some 0, some 0,
+         some 1, some 1, some 1, some 1, some 1]).readers.map (fun cr => cr.2.phase)) = [Phase.done true, Phase.done true] := by
+  decide
 
 end Dulwich.Props.C10
